@@ -4,6 +4,7 @@ import Mieru.Proofs.TamperE2E
 import Mieru.Props.C02
 import Mieru.Props.C17
 import Mieru.Gen.Consts
+import Mieru.Gen.Tamper
 /-!
 # C04 — tampering with bytes on the wire never changes what the application reads
 
@@ -409,6 +410,142 @@ theorem le_noncanonical_rejected (openF : Bytes → Option Bytes) (wire : Bytes)
 /-- the layout constants of the models are the ones the code compiles to -/
 theorem tamper_constants : Gen.nonceSize = 24 ∧ Gen.metadataLength = 32 ∧ Gen.aeadOverhead = 16 ∧
     Gen.packetNonHeaderPosition = 72 ∧ Gen.packetOverhead = 88 := by decide
+
+/-! ## Order of checks in the code (regenerated facts, tie T)
+
+`Mieru.Gen.Tamper` is regenerated by tools/goextract/tamperfacts.go from the working tree on every run: the
+six receive parsers as event traces in source order, the callers of the sub-parsers, and the protocol
+predicates of `Session.input` / `PacketUnderlay.RunEventLoop` EVALUATED for all 256 protocol values. -/
+
+/-- one event of a parser trace: kind, source text, "extent comes from a metadata length field", failure mode -/
+abbrev TEv := String × String × Bool × String
+
+def traceOf (fn : String) : List TEv := ((Gen.Tamper.parserTraces.find? (·.1 == fn)).map (·.2)).getD []
+
+def idxOf (t : List TEv) (kind : String) : Nat := t.findIdx (·.1 == kind)
+def lastIdxOf (t : List TEv) (kind : String) : Nat := t.length - 1 - t.reverse.findIdx (·.1 == kind)
+
+/-- (a) top-level parser: it has a metadata open; every open works on `encryptedMeta`; NOTHING up to the last
+    open has an extent that comes from a length field; Unmarshal and the calls of the sub-parsers (where all
+    length-driven reads / slices live) come after the last open -/
+def metaOpenFirst (t : List TEv) : Bool :=
+  t.any (·.1 == "open") &&
+  (t.filter (·.1 == "open")).all (fun e => e.2.1 ∈
+    ["t.serverInitRecvBlockCipherAndDecryptMetadata(encryptedMeta)", "t.recv.Decrypt(encryptedMeta)",
+     "u.block.Decrypt(encryptedMeta)", "u.tryDecryptExistingSession(encryptedMeta, addr)",
+     "u.serverTryDecryptMetadataForNewSession(encryptedMeta, source)"]) &&
+  (t.take (lastIdxOf t "open" + 1)).all (fun e => !e.2.2.1 && e.1 != "call" && e.1 != "unmarshal") &&
+  t.any (·.1 == "call") && t.any (·.1 == "unmarshal")
+
+/-- (b) a parser that handles types 10/11: the guard, then the decode of the wire body into the SAME variable,
+    then the AEAD open of that variable — in this order, and exactly one payload open -/
+def decodeBeforeOpen (t : List TEv) : Bool :=
+  (t.filter (·.1 == "open")).map (·.2.1) ∈
+    [["t.recv.Decrypt(encryptedPayload)"], ["blockCipher.DecryptWithNonce(encryptedPayload, nonce)"]] &&
+  (t.filter (fun e => e.1 == "decode" && e.2.1 == "decodeLowEntropyEncryptedPayload(encryptedPayload, das)")).length == 1 &&
+  lastIdxOf t "le-guard" < lastIdxOf t "decode" && lastIdxOf t "decode" < idxOf t "open"
+
+/-- (d) how every AEAD open of a parser fails -/
+def failures (t : List TEv) : List String := (t.filter (·.1 == "open")).map (·.2.2.2)
+
+def cmps (t : List TEv) : List String := (t.filter (·.1 == "cmp")).map (·.2.1)
+
+/-- The order of checks of the receive parsers of BOTH transports, read off the source:
+    (a) the AEAD open of the metadata precedes every length-driven read, allocation, slice and comparison
+        (they all sit in the sub-parsers, which are called from `readOneSegment` only, after the open);
+    (b) types 10/11: `decodeLowEntropyEncryptedPayload` (canonical-padding check) precedes the AEAD open, on the
+        same variable, in the only two parsers that handle them;
+    (c) the size comparisons of the packet parser, operators and operands;
+    (d) every failed open ends the attempt: an error return on the stream transport and in the packet
+        sub-parsers, `continue` (silent discard) in the packet reader — never a fall-through. -/
+theorem tamper_check_order :
+    metaOpenFirst (traceOf "StreamUnderlay.readOneSegment") = true ∧
+    metaOpenFirst (traceOf "PacketUnderlay.readOneSegment") = true ∧
+    Gen.Tamper.subParserCallers =
+      [("PacketUnderlay.readOneSegment", "parseSessionSegment"), ("PacketUnderlay.readOneSegment", "parseDataAckSegment"),
+       ("StreamUnderlay.readOneSegment", "readSessionSegment"), ("StreamUnderlay.readOneSegment", "readDataAckSegment")] ∧
+    decodeBeforeOpen (traceOf "StreamUnderlay.readDataAckSegment") = true ∧
+    decodeBeforeOpen (traceOf "PacketUnderlay.parseDataAckSegment") = true ∧
+    (Gen.Tamper.parserTraces.filter (fun f => f.2.any (fun e => e.1 == "le-guard" || e.1 == "decode"))).map (·.1) =
+      ["StreamUnderlay.readDataAckSegment", "PacketUnderlay.parseDataAckSegment"] ∧
+    cmps (traceOf "PacketUnderlay.readOneSegment") =
+      ["n < packetNonHeaderPosition", "len(decryptedMeta) != MetadataLength"] ∧
+    cmps (traceOf "PacketUnderlay.parseSessionSegment") =
+      ["ss.payloadLen > 0", "len(remaining) < int(ss.payloadLen)+cipher.DefaultOverhead",
+       "int(ss.payloadLen)+cipher.DefaultOverhead+int(ss.suffixLen) != len(remaining)", "int(ss.suffixLen) != len(remaining)"] ∧
+    cmps (traceOf "PacketUnderlay.parseDataAckSegment") =
+      ["das.prefixLen > 0", "int(das.prefixLen) > len(remaining)", "das.payloadLen > 0", "len(remaining) < wirePayloadLen",
+       "len(remaining) != wirePayloadLen+int(das.suffixLen)", "int(das.suffixLen) != len(remaining)"] ∧
+    failures (traceOf "StreamUnderlay.readOneSegment") = ["return-error", "return-error"] ∧
+    failures (traceOf "StreamUnderlay.readSessionSegment") = ["return-error"] ∧
+    failures (traceOf "StreamUnderlay.readDataAckSegment") = ["return-error"] ∧
+    failures (traceOf "PacketUnderlay.readOneSegment") = ["continue", "continue", "continue"] ∧
+    failures (traceOf "PacketUnderlay.parseSessionSegment") = ["return-error"] ∧
+    failures (traceOf "PacketUnderlay.parseDataAckSegment") = ["return-error"] := by decide
+
+/-- the packet sub-parsers in full: every slice is guarded by the comparison in front of it, the exact-size
+    test of a data/ack datagram precedes the open, the one of a session datagram follows it (same accept set:
+    `Tamper.parseD`'s docstring) -/
+theorem packet_parser_event_order :
+    (traceOf "PacketUnderlay.parseDataAckSegment").map (fun e => (e.1, e.2.1)) =
+      [("le-guard", "isLowEntropyProtocol(das.Protocol())"), ("decode", "validateLowEntropyDataAckMetadata(das)"),
+       ("cmp", "das.prefixLen > 0"), ("cmp", "int(das.prefixLen) > len(remaining)"), ("slice", "remaining[das.prefixLen:]"),
+       ("cmp", "das.payloadLen > 0"), ("cmp", "len(remaining) < wirePayloadLen"),
+       ("cmp", "len(remaining) != wirePayloadLen+int(das.suffixLen)"), ("slice", "remaining[:wirePayloadLen]"),
+       ("le-guard", "isLowEntropyProtocol(das.Protocol())"),
+       ("decode", "decodeLowEntropyEncryptedPayload(encryptedPayload, das)"),
+       ("open", "blockCipher.DecryptWithNonce(encryptedPayload, nonce)"),
+       ("cmp", "int(das.suffixLen) != len(remaining)")] ∧
+    (traceOf "PacketUnderlay.parseSessionSegment").map (fun e => (e.1, e.2.1)) =
+      [("cmp", "ss.payloadLen > 0"), ("cmp", "len(remaining) < int(ss.payloadLen)+cipher.DefaultOverhead"),
+       ("slice", "remaining[:ss.payloadLen+cipher.DefaultOverhead]"),
+       ("open", "blockCipher.DecryptWithNonce(encryptedPayload, nonce)"),
+       ("cmp", "int(ss.payloadLen)+cipher.DefaultOverhead+int(ss.suffixLen) != len(remaining)"),
+       ("cmp", "int(ss.suffixLen) != len(remaining)")] := by decide
+
+/-- what the regenerated dispatch facts say about protocol value `p` on a client (`ic`) / server endpoint:
+    `none` = the facts have a shape the model does not know -/
+def dispatchedByFacts (ic : Bool) (p : Nat) : Option Bool :=
+  match (Gen.Tamper.packetDispatch.find? (·.1 == p)).map (·.2) with
+  | none => some false
+  | some h =>
+    if h == "sessionMap.Load" then some true else
+    match (Gen.Tamper.packetHandlerRoleGuards.find? (·.1 == h)).map (·.2) with
+    | some g => if g == "NONE" then some true else if g == "u.isClient" then some (!ic)
+                else if g == "!u.isClient" then some ic else none
+    | none => none
+
+/-- The direction test, the final if-chain of `Session.input` and the dispatch of the packet underlay, for
+    ALL 256 protocol values and both roles: the model's `validDirection`, `inputKind`, `dispatched` are what the
+    source expressions evaluate to. (A whitelist that lets one more type through — e.g. both low-entropy data
+    types on either role — changes `Gen.Tamper.sessionInputAccepts…` and breaks this theorem at build time.) -/
+theorem session_input_direction_all_values :
+    (∀ p, p < 256 → validDirection true p = Gen.Tamper.sessionInputAcceptsClient.contains p) ∧
+    (∀ p, p < 256 → validDirection false p = Gen.Tamper.sessionInputAcceptsServer.contains p) ∧
+    (∀ p, p < 256 → inputKind p =
+      if Gen.Tamper.sessionInputData.contains p then .data else if Gen.Tamper.sessionInputAck.contains p then .ack
+      else if Gen.Tamper.sessionInputClose.contains p then .close else .ignored) ∧
+    (∀ p, p < 256 → dispatchedByFacts true p = some (dispatched true 7 ⟨p, 7, 0⟩) ∧
+                    dispatchedByFacts false p = some (dispatched false 7 ⟨p, 7, 0⟩)) ∧
+    -- client→server types never pass a client's test, server→client types never a server's: 6/7 AND 10/11
+    (∀ p ∈ [2, 6, 8, 10], validDirection true p = false) ∧ (∀ p ∈ [3, 7, 9, 11], validDirection false p = false) := by
+  decide +kernel
+
+/-- A unit that travels in the wrong direction (or names another session, or has a type the event loop does
+    not hand to this session) is NEVER delivered to the application, whatever it carries and even though it
+    authenticates: the receiver's state does not change. -/
+theorem udp_wrong_direction_never_delivered (openF : Bytes → Bytes → Option Bytes) (M : PCodec)
+    (bd : PMd → Bytes → Option Bytes) (ids : PMd → Ids) (dig : Bytes → Nat) (c : RxCfg) (s : Arq.St) (b : Bytes)
+    (m : PMd) (p : Bytes) (hp : parseD openF M bd b = some (m, p))
+    (hbad : validDirection c.isClient (ids m).proto = false ∨ (ids m).sid ≠ c.sid ∨
+            dispatched c.isClient c.sid (ids m) = false) :
+    rxStep openF M bd ids dig c s b = s := by
+  have hr : route c (ids m) = none := by
+    rcases hbad with h | h | h
+    · simp [route, h]
+    · simp [route, dispatched, h]
+    · simp [route, h]
+  simp [rxStep, hp, hr]
 
 /-! ## Non-vacuity and regressions -/
 
